@@ -1,4 +1,5 @@
 import sys
+# unmarshalTime *time.Duration: null keeps the previous duration
 p=sys.argv[1]+'/marshal.go'; s=open(p).read()
 old="""	case *time.Duration:
 		*v = time.Duration(decBigInt(data))"""
